@@ -91,3 +91,26 @@ def class_functions(relpath, clsname, include_bases=()):
 
 def module_functions(relpath, names):
     return {n: get(relpath, n) for n in names}
+
+
+def get_dispatch(relpath, generic, argtype):
+    """the implementation registered with ``@<generic>.register`` whose first parameter is annotated ``argtype``
+    (a singledispatch / singledispatchmethod variant, conventionally named ``_``)"""
+    text, mod = module_ast(relpath)
+    for node in ast.walk(mod):
+        if isinstance(node, ast.FunctionDef):
+            for d in node.decorator_list:
+                if isinstance(d, ast.Attribute) and d.attr == "register" and \
+                        (isinstance(d.value, ast.Name) and d.value.id == generic or
+                         isinstance(d.value, ast.Attribute) and d.value.attr == generic):
+                    args = [a for a in node.args.args if a.arg not in ("self", "cls")]
+                    if args and args[0].annotation is not None and ast.unparse(args[0].annotation) == argtype:
+                        return node
+    raise KeyError(f"{generic}.register({argtype}) not found in {relpath}")
+
+
+def describe_node(relpath, node, label, tier):
+    text, _ = module_ast(relpath)
+    src = ast.get_source_segment(text, node)
+    return {"file": "src/" + relpath, "qualname": label, "line": node.lineno,
+            "sha256": hashlib.sha256(src.encode()).hexdigest()[:16], "tier": tier}
